@@ -534,6 +534,7 @@ def sim_os_close(fd):
     return _ORIG["os_close"](fd)
 
 
+_ORIG_CPU_COUNT = os.cpu_count
 import subprocess as _subprocess
 _ORIG_SUBPROCESS_RUN = _subprocess.run
 
@@ -697,7 +698,14 @@ def install(cfg):
     if cfg.get("pool") and cfg["pool"].get("n"):
         # the simulated machine has as many CPUs as the plan's pool has workers
         n_cpu = int(cfg["pool"]["n"])
+        real_cpu_count = os.cpu_count
         os.cpu_count = lambda: n_cpu
+        for mname, mod in list(sys.modules.items()):
+            # 'from os import cpu_count' binds the function itself
+            if mod is not None and (mname == "reuse" or mname.startswith("reuse.")):
+                for attr, val in list(vars(mod).items()):
+                    if val is real_cpu_count or val is _ORIG_CPU_COUNT:
+                        setattr(mod, attr, os.cpu_count)
         if hasattr(os, "process_cpu_count"):
             os.process_cpu_count = lambda: n_cpu
         if hasattr(os, "sched_getaffinity"):
